@@ -435,6 +435,11 @@ class SparseDrugComboInteraction(BayesianModel, MCMCModel):
                 "received a {} treatment dataset".format(data.treatment_arity)
             )
 
+        if not (data.observations >= 0.0).all():
+            raise ValueError(
+                "Observations should be non-negative, please check input data"
+            )
+
         self.single_effect_lookup.update(
             create_single_treatment_effect_map(
                 sample_ids=data.sample_ids,
@@ -443,9 +448,7 @@ class SparseDrugComboInteraction(BayesianModel, MCMCModel):
             )
         )
 
-        combo_mask = np.sum(data.treatment_ids == CONTROL_SENTINEL_VALUE, axis=1) == (
-            data.treatment_ids.shape[1]
-        )
+        combo_mask = np.sum(data.treatment_ids == CONTROL_SENTINEL_VALUE, axis=1) == 0
 
         obs = data.observations[combo_mask]
         cls = data.sample_ids[combo_mask]
@@ -453,8 +456,13 @@ class SparseDrugComboInteraction(BayesianModel, MCMCModel):
         dd2s = data.treatment_ids[combo_mask, 1]
         masks = data.observation_mask[combo_mask]
 
+        observations_transformed = logit(obs.astype(np.float32))
+
+        if np.isnan(observations_transformed).any():
+            raise ValueError("NaNs in observations, please check input data")
+
         for y, dd1, dd2, cl, mask in zip(
-            logit(obs.astype(np.float32)), dd1s, dd2s, cls, masks
+            observations_transformed, dd1s, dd2s, cls, masks
         ):
             if mask:
                 self.wrapped_model._update(y=y, cl=cl, dd1=dd1, dd2=dd2)
